@@ -707,7 +707,11 @@ def run(ctx):
         if not same(im, rf):
             def bad(c, o):
                 return not same(run_impl(c, o), ref(c, o))
-            c2, o2 = shrink(case, order, bad)
+            # shrink only while the class is new: a mass failure must still end in minutes
+            if v.viol_by_key.get(diff_class(im, rf), 0) < 2 and sum(v.viol_by_key.values()) < 12:
+                c2, o2 = shrink(case, order, bad)
+            else:
+                c2, o2 = case, order
             im2, rf2 = run_impl(c2, o2), ref(c2, o2)
             v.failing_input(diff_class(im2, rf2),
                             f"create_flows gives {im2!r}; sequential last-definition-wins reading gives {rf2!r}",
@@ -722,7 +726,7 @@ def run(ctx):
                     a = dec_model(m.ask(enc_case(c, o)), o)
                     b = run_impl(c, o)
                     return (a if a[0] != "err" else ("err",)) != (b if b[0] != "err" else ("err",))
-                c2, o2 = shrink(case, order, bad2)
+                c2, o2 = shrink(case, order, bad2) if len(ctx.disagreements) < 3 else (case, order)
                 ctx.disagree("create_flows projection (" + tag + ")", dict(case=c2, order=o2),
                              repr(dec_model(m.ask(enc_case(c2, o2)), o2)), repr(run_impl(c2, o2)))
         return im, rf
